@@ -270,7 +270,7 @@ def do_check(prop, tier, keep=False, only=None, verbose=False):
             # vacuity canary once per contract family (job name without its instantiation suffix); all of them in the thorough tier
             fam = set()
             for j in jobs:
-                f = re.sub(r'\.[^.]+$', '', j.name)
+                f = re.sub(r'(?<![A-Za-z0-9])[iuf]\d+l?(?![A-Za-z0-9])|_[iuf]\d+l?(?=_|$|\.)|(?<=_)m?\d+(?=_|$)', '', j.name)      # job name without its type / exponent tokens
                 if f in fam and j.canary in ('ensures', 'signal'):
                     j.canary = 'sampled-out'
                 fam.add(f)
